@@ -53,6 +53,7 @@ func runC03(rc *RunCtx) {
 	}
 	defer c.Close()
 	s := &SW{rc: rc, c: c}
+	netWindows = map[string]int64{}
 	rc.Logf("W=%d C=%d chunk=%d provers=%d files=%d", W, C, chunk, nProv, nFiles)
 
 	dts := []time.Duration{6 * time.Second, time.Hour, 24 * time.Hour, 90 * time.Minute}
@@ -118,7 +119,13 @@ func runC03(rc *RunCtx) {
 			f = gen.NewFile(randBytes(rc.Rng, int64(1+rc.Intn(20000))), chunk)
 		}
 		maxp := int64(1 + rc.Intn(nProv))
+		if rc.Chance(0.3) {
+			s.ReqProofInterval = []int64{1, W + 1, 2 * W, 1000, 1 << 40, -1}[rc.Intn(6)]
+		}
 		w, r := s.PostFile(0, f, maxp, 0, declared)
+		if r.OK() {
+			netWindows[w.Key()] = w.Window
+		}
 		if !r.OK() {
 			rc.Abort("post file: " + r.Log)
 			return
